@@ -198,6 +198,11 @@ MEM_R(P_REM, 3, MEMREC_NODUP_AT(memrec, vg_r, vg_r2) && MEMREC_NODUP_AT(memrec, 
 __CPROVER_assigns(memrec->cnt, memrec->ptrs, vg_fidx)
 __CPROVER_assigns(memrec->ptrs != NULL: __CPROVER_object_whole(memrec->ptrs))
 __CPROVER_frees(memrec->ptrs)
+/* after a removal that leaves records the table was re-allocated: a fresh block */
+__CPROVER_ensures((memrec->cnt == __CPROVER_old(memrec->cnt) && memrec->ptrs == __CPROVER_old(memrec->ptrs)) ||
+                  (ptr != NULL && memrec->cnt + 1 == __CPROVER_old(memrec->cnt) &&
+                   (memrec->cnt == 0 ? memrec->ptrs == __CPROVER_old(memrec->ptrs)
+                                     : __CPROVER_is_fresh(memrec->ptrs, MEMREC_RSZ * memrec->cnt))))
 MEM_E(P_REM, 1, MEMREC_POST(memrec))
 MEM_E(P_REM, 1, (memrec->cnt == __CPROVER_old(memrec->cnt) && memrec->ptrs == __CPROVER_old(memrec->ptrs)) ||
               (ptr != NULL && memrec->cnt + 1 == __CPROVER_old(memrec->cnt) && vg_fidx <= memrec->cnt))
@@ -290,9 +295,10 @@ __CPROVER_ensures(!(ptr != NULL && size == 0) || (__CPROVER_return_value == NULL
 __CPROVER_ensures(!(ptr != NULL && size != 0) || (__CPROVER_is_fresh(__CPROVER_return_value, size) && __CPROVER_was_freed(ptr)))
 ;
 char *spifmem_strdup(const char *var, const char *filename, unsigned long line, const char *str)
-__CPROVER_requires(MEM_LEVEL_REQ && VCSTR_FRESH(str, vg_n2))
+__CPROVER_requires(MEM_LEVEL_REQ && vg_n2 < (size_t) VCAP && __CPROVER_is_fresh(str, vg_n2 + 1) && str[vg_n2] == 0 && (!(vg_j < vg_n2) || str[vg_j] != 0))
 __CPROVER_assigns()
-__CPROVER_ensures(__CPROVER_rw_ok(__CPROVER_return_value, 1))
+__CPROVER_ensures(__CPROVER_is_fresh(__CPROVER_return_value, vg_n2 + 1))
+__CPROVER_ensures(__CPROVER_return_value[vg_n2] == 0 && (!(vg_k < vg_n2) || __CPROVER_return_value[vg_k] == str[vg_k]))
 ;
 #endif /* U_LEVEL_OFF */
 
@@ -359,6 +365,89 @@ MEM_E(P_FREE, 2,
       (vg_r < vg_fidx ? MEMREC_REC_EQ(malloc_rec.ptrs[vg_r], vg_o_r) : MEMREC_REC_EQ(malloc_rec.ptrs[vg_r], vg_o_r1)))))
 MEM_E(P_FREE, 3, MEMREC_NODUP_AT(MEM_TAB, vg_r, vg_r2))
 MEM_E(P_FREE, 3, malloc_rec.cnt == __CPROVER_old(malloc_rec.cnt) || vg_fidx != vg_r2 || MEMREC_ABSENT_AT(MEM_TAB, ptr, vg_r))
+;
+/* realloc: three behaviours; a unit may pin one with U_RB_NULL / U_RB_ZERO / U_RB_MOVE (extra precondition
+ * and that behaviour's table clauses); the allocation clauses are always there.
+ *   ptr == NULL            allocates: as spifmem_malloc
+ *   ptr != NULL, size == 0 frees:     as spifmem_free
+ *   otherwise              new block of the new size, old block released; the record of ptr (if any)
+ *                          becomes (new address, new size, file, line), an unknown ptr leaves the table unchanged */
+#define MEM_LIVE_OR_ARG_AT(k, p) (!((k) < malloc_rec.cnt) || ((p) != NULL && malloc_rec.ptrs[(k)].ptr == (p)) || \
+                                  (malloc_rec.ptrs[(k)].size <= (size_t) VCAP && \
+                                   __CPROVER_is_fresh(malloc_rec.ptrs[(k)].ptr, malloc_rec.ptrs[(k)].size)))
+void *spifmem_realloc(const char *var, const char *filename, unsigned long line, void *ptr, size_t size)
+__CPROVER_requires(MEM_LEVEL_REQ && size <= (size_t) VCAP && vg_n2 <= (size_t) VCAP && (ptr == NULL || __CPROVER_is_fresh(ptr, vg_n2)))
+#if defined(U_RB_NULL)
+__CPROVER_requires(ptr == NULL)
+#elif defined(U_RB_ZERO)
+__CPROVER_requires(ptr != NULL && size == 0)
+#elif defined(U_RB_MOVE)
+__CPROVER_requires(ptr != NULL && size != 0)
+#endif
+__CPROVER_requires(MEMREC_PRE(MEM_TAB) && malloc_rec.cnt < MEMREC_CAP)
+__CPROVER_requires(MEM_FNAME_PRE(filename) && line <= 0xffffffffUL)
+MEM_R(P_REALLOC, 2, MEMREC_LOGICAL(MEM_TAB))
+MEM_R(P_REALLOC, 3, MEMREC_NODUP_AT(MEM_TAB, vg_r, vg_r2) && MEMREC_NODUP_AT(MEM_TAB, vg_r + 1, vg_r2) &&
+              MEMREC_NODUP_AT(MEM_TAB, vg_r, vg_r2 + 1) && MEMREC_NODUP_AT(MEM_TAB, vg_r + 1, vg_r2 + 1))
+MEM_R(P_REALLOC, 3, MEM_LIVE_OR_ARG_AT(vg_r, ptr) && (vg_r2 == vg_r || MEM_LIVE_OR_ARG_AT(vg_r2, ptr)))
+__CPROVER_assigns(malloc_rec.cnt, malloc_rec.ptrs, vg_exit, vg_fidx)
+__CPROVER_assigns(malloc_rec.ptrs != NULL: __CPROVER_object_whole(malloc_rec.ptrs))
+__CPROVER_frees(malloc_rec.ptrs, ptr)
+__CPROVER_ensures(ptr != NULL || __CPROVER_is_fresh(__CPROVER_return_value, size))
+__CPROVER_ensures(!(ptr != NULL && size == 0) || (__CPROVER_return_value == NULL && __CPROVER_was_freed(ptr)))
+__CPROVER_ensures(!(ptr != NULL && size != 0) || (__CPROVER_is_fresh(__CPROVER_return_value, size) && __CPROVER_was_freed(ptr)))
+MEM_E(P_REALLOC, 1, MEMREC_POST(MEM_TAB))
+MEM_E(P_REALLOC, 1, ptr != NULL || malloc_rec.cnt == __CPROVER_old(malloc_rec.cnt) + 1)
+MEM_E(P_REALLOC, 1, !(ptr != NULL && size == 0) || malloc_rec.cnt == __CPROVER_old(malloc_rec.cnt) || malloc_rec.cnt + 1 == __CPROVER_old(malloc_rec.cnt))
+MEM_E(P_REALLOC, 1, !(ptr != NULL && size != 0) || (malloc_rec.cnt == __CPROVER_old(malloc_rec.cnt) && malloc_rec.ptrs == __CPROVER_old(malloc_rec.ptrs)))
+#if defined(U_RB_NULL)
+MEM_E(P_REALLOC, 2, !(vg_r < __CPROVER_old(malloc_rec.cnt)) || MEMREC_REC_EQ(malloc_rec.ptrs[vg_r], vg_o_r))
+MEM_E(P_REALLOC, 2, vg_r != __CPROVER_old(malloc_rec.cnt) ||
+            (malloc_rec.ptrs[vg_r].ptr == __CPROVER_return_value && malloc_rec.ptrs[vg_r].size == size &&
+             malloc_rec.ptrs[vg_r].line == (spif_uint32_t) line && MEMREC_FILE_IS(MEM_TAB, vg_r, filename)))
+#elif defined(U_RB_ZERO)
+MEM_E(P_REALLOC, 2, 
+    (malloc_rec.cnt == __CPROVER_old(malloc_rec.cnt) &&
+     (!(vg_r < malloc_rec.cnt) || vg_o_r.ptr != ptr) &&
+     (!(vg_r < malloc_rec.cnt) || MEMREC_REC_EQ(malloc_rec.ptrs[vg_r], vg_o_r)))
+    ||
+    (malloc_rec.cnt + 1 == __CPROVER_old(malloc_rec.cnt) &&
+     (vg_fidx != vg_r2 || vg_o_r2.ptr == ptr) &&
+     (!(vg_r < malloc_rec.cnt) ||
+      (vg_r < vg_fidx ? MEMREC_REC_EQ(malloc_rec.ptrs[vg_r], vg_o_r) : MEMREC_REC_EQ(malloc_rec.ptrs[vg_r], vg_o_r1)))))
+MEM_E(P_REALLOC, 3, malloc_rec.cnt == __CPROVER_old(malloc_rec.cnt) || vg_fidx != vg_r2 || MEMREC_ABSENT_AT(MEM_TAB, ptr, vg_r))
+#elif defined(U_RB_MOVE)
+MEM_E(P_REALLOC, 2, 
+    ((!(vg_r < malloc_rec.cnt) || vg_o_r.ptr != ptr) &&
+     (!(vg_r < malloc_rec.cnt) || MEMREC_REC_EQ(malloc_rec.ptrs[vg_r], vg_o_r)))
+    ||
+    (vg_fidx < malloc_rec.cnt &&
+     (vg_fidx != vg_r2 || vg_o_r2.ptr == ptr) &&
+     (!(vg_r < malloc_rec.cnt) || vg_r == vg_fidx || MEMREC_REC_EQ(malloc_rec.ptrs[vg_r], vg_o_r)) &&
+     (vg_r != vg_fidx ||
+      (malloc_rec.ptrs[vg_r].ptr == __CPROVER_return_value && malloc_rec.ptrs[vg_r].size == size &&
+       malloc_rec.ptrs[vg_r].line == (spif_uint32_t) line && MEMREC_FILE_IS(MEM_TAB, vg_r, filename)))))
+#endif
+MEM_E(P_REALLOC, 3, MEMREC_NODUP_AT(MEM_TAB, vg_r, vg_r2))
+;
+/* strdup: a fresh copy, recorded like a malloc of strlen+1 bytes */
+char *spifmem_strdup(const char *var, const char *filename, unsigned long line, const char *str)
+__CPROVER_requires(MEM_LEVEL_REQ && vg_n2 < (size_t) VCAP && __CPROVER_is_fresh(str, vg_n2 + 1) && str[vg_n2] == 0 && (!(vg_j < vg_n2) || str[vg_j] != 0))
+__CPROVER_requires(MEMREC_PRE(MEM_TAB) && malloc_rec.cnt < MEMREC_CAP)
+__CPROVER_requires(MEM_FNAME_PRE(filename) && line <= 0xffffffffUL)
+MEM_R(P_MALLOC, 2, MEMREC_LOGICAL(MEM_TAB))
+MEM_R(P_MALLOC, 3, MEMREC_NODUP_AT(MEM_TAB, vg_r, vg_r2) && MEM_LIVE_PRE_AT(vg_r) && (vg_r2 == vg_r || MEM_LIVE_PRE_AT(vg_r2)))
+__CPROVER_assigns(malloc_rec.cnt, malloc_rec.ptrs, vg_exit)
+__CPROVER_assigns(malloc_rec.ptrs != NULL: __CPROVER_object_whole(malloc_rec.ptrs))
+__CPROVER_frees(malloc_rec.ptrs)
+__CPROVER_ensures(__CPROVER_is_fresh(__CPROVER_return_value, vg_n2 + 1))
+__CPROVER_ensures(__CPROVER_return_value[vg_n2] == 0 && (!(vg_k < vg_n2) || __CPROVER_return_value[vg_k] == str[vg_k]))
+MEM_E(P_MALLOC, 1, MEMREC_POST(MEM_TAB) && malloc_rec.cnt == __CPROVER_old(malloc_rec.cnt) + 1)
+MEM_E(P_MALLOC, 2, !(vg_r < __CPROVER_old(malloc_rec.cnt)) || MEMREC_REC_EQ(malloc_rec.ptrs[vg_r], vg_o_r))
+MEM_E(P_MALLOC, 2, vg_r != __CPROVER_old(malloc_rec.cnt) ||
+            (malloc_rec.ptrs[vg_r].ptr == __CPROVER_return_value && malloc_rec.ptrs[vg_r].size == vg_n2 + 1 &&
+             malloc_rec.ptrs[vg_r].line == (spif_uint32_t) line))
+MEM_E(P_MALLOC, 3, MEMREC_NODUP_AT(MEM_TAB, vg_r, vg_r2))
 ;
 #endif /* U_LEVEL_ON */
 
